@@ -1,38 +1,238 @@
-"""C12: SIMD evaluation equals scalar evaluation (differential: both sides are the real nmtools evaluators)."""
+"""C12: SIMD evaluation equals scalar evaluation (differential: both sides are the real nmtools evaluators).
+
+One kernel source (kernels/C12_simd.cpp) is compiled once per SIMD context and part (element-wise / outer / reductions).
+Per-query constants: context, element type, op, element counts / shapes / axis / keepdims. Symbolic: all element data, op parameters."""
 SRC = 'kernels/C12_simd.cpp'
 CTXS = {  # name -> (CTX id, -m flags, bit width)
     'avx': (1, ['-mavx'], 256), 'sse': (2, ['-msse4.2'], 128), 'v128': (3, [], 128), 'v256': (4, [], 256), 'v512': (5, [], 512),
+    'simde': (6, [], 512),    # SIMDe AVX-512 in its portable (no -mavx512f) mode: the emulation layer's generic-vector IR translates
 }
-KERNELS = {'C12_' + c: dict(src=SRC, flags=['-DNDEBUG', '-DC12_CTX=%d' % i, '-DKSUFFIX=_' + c] + m) for c, (i, m, _) in CTXS.items()}
+PARTS = {'ew': 1, 'outer': 2, 'red': 3, 'tight': 4}
+KERNELS = {'C12_%s_%s' % (c, p): dict(src=SRC, flags=['-DNDEBUG', '-DC12_CTX=%d' % i, '-DC12_PART=%d' % pi, '-DKSUFFIX=_' + c] + m)
+           for c, (i, m, _) in CTXS.items() for p, pi in PARTS.items()}
 OPS = dict(relu=1, relu6=2, sqrt=3, ceil=4, floor=5, softsign=6, hardswish=7, leaky_relu=8, prelu=9, softshrink=10, hardshrink=11, hardtanh=12,
            add=20, subtract=21, multiply=22, divide=23)
-# ops whose two evaluations contain float arithmetic / rounding / sqrt: decided with those operations as uninterpreted functions (LL_UF_FLOAT)
+# ops whose evaluation contains float arithmetic / rounding / sqrt are decided with those operations as uninterpreted functions, the same
+# symbol on the SIMD and on the scalar side (translator mode LL_UF_FLOAT); compare/select/bit operations stay exact
 UF_OPS = {'sqrt', 'ceil', 'floor', 'softsign', 'hardswish', 'leaky_relu', 'prelu', 'softshrink', 'add', 'subtract', 'multiply', 'divide'}
 UNARY = ['relu', 'sqrt', 'ceil', 'floor', 'relu6', 'hardtanh', 'leaky_relu', 'prelu', 'hardshrink', 'softshrink', 'softsign', 'hardswish']
 BINARY = ['add', 'subtract', 'multiply', 'divide']
+VEC = ('v128', 'v256', 'v512')
+
+# ---- findings reported by this property: see PENDING_FINDINGS at the end (assertions are kept; regions are excluded ONLY through KF_C12_* macros)
 
 
 def lanes(ctx, ty): return CTXS[ctx][2] // (64 if ty else 32)
 
 
-def cfg(ctx, op, ty, ns=None, exact=False, **kw):
-    L = lanes(ctx, ty)
-    c = {'CTX': CTXS[ctx][0], 'TY': ty, 'OP': OPS[op]}
-    if op in UF_OPS and not exact: c['LL_UF_FLOAT'] = 1
-    if ns is not None: c['NLIST'] = ','.join(str(n) for n in ns)
-    nmax = max(ns) if ns is not None else 4 * L + 1
-    c['_unwind'] = nmax + 2
+def known(ctx, op):
+    """TEMPORARY exclusion macros of the pending findings that apply to (context, op)"""
+    k = {}
+    if op == 'relu6': k['NAN_FREE'] = 1; k['KF_C12_RELU6_NEGZERO'] = 1
+    if op == 'hardtanh': k['NAN_FREE'] = 1; k['KF_C12_HARDTANH_ZERO'] = 1
+    if op == 'softshrink': k['KF_C12_SOFTSHRINK_NAN'] = 1
+    if op == 'relu' and ctx in VEC: k['KF_C12_RELU_NEGZERO'] = 1
+    return k
+
+
+SORTED_UF = {'leaky_relu', 'prelu'}   # scalar functor computes slope * x, the SIMD path x * slope: commutative operands are canonically ordered
+
+
+def base(ctx, part, op, ty, exact=False):
+    c = {'CTX': CTXS[ctx][0], 'PART': PARTS[part], 'TY': ty, 'OP': OPS[op]}
+    if op in UF_OPS and not exact:
+        c['LL_UF_FLOAT'] = 1
+        if op not in SORTED_UF and ctx != 'simde': c['LL_UF_NOSORT'] = 1   # (SIMDe's emulation layer orders operands differently from the scalar code)
+    return c
+
+
+def ucfg(ctx, op, ty, ns, **kw):
+    c = base(ctx, 'ew', op, ty, kw.pop('exact', False)); c['NLIST'] = ','.join(str(n) for n in ns); c['_unwind'] = max(ns) + 2
+    c.update(known(ctx, op)); c.update(kw); return c
+
+
+def b2cfg(ctx, op, ty, lr, lc, rr, rc, **kw):
+    c = base(ctx, 'ew', op, ty); c.update(LR=lr, LC=lc, RR=rr, RC=rc); c['_unwind'] = max(lr, rr) * max(lc, rc) + 2
+    if (lr * lc == 1 and rr > 1) or (rr * rc == 1 and lr > 1): c['KF_C12_BCAST_11'] = 1
     c.update(kw); return c
 
 
+def ocfg(ctx, op, ty, n, m, **kw):
+    c = base(ctx, 'outer', op, ty); c.update(ON=n, OM=m); c['_unwind'] = n * m + 2; c.update(kw); return c
+
+
+def o2cfg(ctx, op, ty, r, cc, m, **kw):
+    c = base(ctx, 'outer', op, ty); c.update(OR=r, OC=cc, OM=m); c['_unwind'] = r * cc * m + 2; c.update(kw); return c
+
+
+def rcfg(ctx, op, ty, shape, axis, kd, vmax=3, **kw):
+    c = base(ctx, 'red', op, ty, exact=True); c.update(RK=len(shape), AXIS=axis, KD=kd, VMAX=vmax)
+    for i, e in enumerate(shape): c['S%d' % i] = e
+    n = 1
+    for e in shape: n *= e
+    c['_unwind'] = n + 2; c.update(kw); return c
+
+
+def racfg(ctx, op, ty, shape, kd, vmax=3, **kw):
+    c = base(ctx, 'red', op, ty, exact=True); c.update(RK=0, KD=kd, VMAX=vmax, S0=shape[0], S1=shape[1]); c['_unwind'] = shape[0] * shape[1] + 2
+    c.update(kw); return c
+
+
+def rep(L): return [1, L - 1, L, L + 1, 2 * L + 3]          # representative counts: below / at / above one pack, two packs + tail
+def rep_uf(L): return [L - 1, L + 1, 2 * L + 3]
+
+
+def H(name, func, ctx, part, bounds, quick, thorough, **kw):
+    return dict(name='%s_%s' % (name, ctx), src='harnesses/C12.c', func=func, kernels=['C12_%s_%s' % (ctx, part)], backend='kissat',
+                bounds=bounds, quick=quick, thorough=thorough, thorough_includes_quick=True, **kw)
+
+
+B_UN = ('1-d hybrid array (capacity 72); element counts are per-query constants (NLIST: all listed counts are run in the same query; quick: '
+        'representative counts {1, L-1, L, L+1, 2L+3} resp. {L-1, L+1, 2L+3}; thorough: every count 1..4L+1, L = lanes); every element (any bit pattern: '
+        'NaN, inf, denormals, -0 unless a listed KF_/NAN_FREE macro excludes it) and the op parameters (slope / alpha / lambda / min_val < max_val) symbolic')
+B_BIN = 'two same-shape 1-d hybrid arrays; element counts per-query constants as for unary; every element of both operands symbolic'
+B_B2 = ('2-d hybrid operands; shapes lhs (LR,LC), rhs (RR,RC) are per-query constants: same shape, (r,c)x(r,1), (r,c)x(1,c), (r,1)x(1,c), (1,c)x(r,1) '
+        'with c around the lane count (quick: c = L+1; thorough: r in 1..3, c in 1..2L+1); every element symbolic')
+B_OUT = 'outer op of (ON,) with (OM,) / of (OR,OC) with (OM,); extents per-query constants (OM around the lane count); every element symbolic'
+B_RED = ('reduction of a 2-d / 3-d hybrid array over AXIS (per-query constant, incl. negative) with keepdims KD, and axis=None; shape per-query constant; '
+         'elements are symbolic small integer-valued floats 0..VMAX (exact in every association order: partial sums < 2^24), float arithmetic exact')
+
+SIMDE_UNARY = ['relu', 'sqrt', 'ceil', 'floor', 'relu6', 'hardtanh', 'leaky_relu', 'prelu', 'softsign']   # the other three do not compile (simde_kxor_mask16)
 HARNESSES = []
 for ctx in CTXS:
-    HARNESSES.append(dict(name='unary_' + ctx, src='harnesses/C12.c', func='h_unary', kernels=['C12_' + ctx], backend='kissat',
-                          bounds='1-d hybrid array; element counts listed per query (NLIST; default {1, L-1, L, L+1, 2L+3, 4L+1}, L = lanes); all elements and op parameters symbolic (any bit pattern)',
-                          quick=[cfg(ctx, 'relu6', 0, [lanes(ctx, 0) + 1], NAN_FREE=1), cfg(ctx, 'hardtanh', 0, [lanes(ctx, 0) + 1], NAN_FREE=1), cfg(ctx, 'softshrink', 0, [lanes(ctx, 0) + 1], NAN_FREE=1)], thorough=[]))
-    HARNESSES.append(dict(name='binary_' + ctx, src='harnesses/C12.c', func='h_binary', kernels=['C12_' + ctx], backend='kissat',
-                          bounds='two same-shape 1-d hybrid arrays; element counts listed per query; all elements symbolic',
-                          quick=[cfg(ctx, op, 0, [lanes(ctx, 0) + 1]) for op in BINARY[:1]], thorough=[]))
-OUTSIDE = []
-ASSUMPTIONS = []
-CLAIM = dict(text='', note='')
+    L = lanes(ctx, 0); Ld = lanes(ctx, 1); x86 = ctx in ('avx', 'sse'); wide = ctx in ('v512', 'simde')
+    uops = UNARY if x86 else (['relu', 'sqrt', 'relu6'] if ctx == 'simde' else ['relu', 'ceil', 'relu6', 'leaky_relu', 'softshrink', 'hardswish'] if ctx == 'v256' else ['relu', 'sqrt', 'relu6', 'softshrink'])
+    tops = UNARY if x86 else (SIMDE_UNARY if ctx == 'simde' else ['relu', 'sqrt', 'ceil', 'relu6', 'leaky_relu', 'softshrink', 'hardswish'])
+    # quick: compare/select-only ops over the representative counts in one query; arithmetic ops (uninterpreted) at L+1 (one pack + scalar tail)
+    q = [ucfg(ctx, op, 0, [L + 1] if op in UF_OPS else rep(L)) for op in uops]
+    if x86: q += [ucfg(ctx, 'sqrt', 0, [2 * L + 3])]
+    q += [ucfg(ctx, op, 1, [Ld + 1] if op in UF_OPS else rep(Ld)) for op in (('relu', 'sqrt', 'hardtanh') if x86 else ('floor',) if ctx == 'v256' else ())]
+    # thorough: EVERY count 1..4L+1: compare/select-only ops in chunks of 6 counts per query, arithmetic ops one count per query;
+    # double for four ops; the 512-bit contexts enumerate every count for three ops and the representative counts for the rest
+    def allcounts(op, ty):
+        Lt = lanes(ctx, ty); ns = list(range(1, 4 * Lt + 2))
+        if wide and op not in ('relu', 'sqrt', 'leaky_relu'): ns = rep(Lt) + [4 * Lt + 1]
+        return [ns[i:i + 6] for i in range(0, len(ns), 6)] if op not in UF_OPS else [[n] for n in ns]
+    t = [ucfg(ctx, op, 0, ns) for op in tops for ns in allcounts(op, 0)]
+    t += [ucfg(ctx, op, 1, ns) for op in tops if op in ('relu', 'sqrt', 'hardtanh', 'leaky_relu') for ns in allcounts(op, 1)]
+    t += [ucfg(ctx, op, 0, [L + 1], exact=True) for op in ('ceil', 'floor')]      # exact rounding functions (CBMC's ceilf/floorf on both sides)
+    HARNESSES.append(H('unary', 'h_unary', ctx, 'ew', B_UN, q, t))
+    bops = BINARY if x86 else ['add', 'divide']
+    q = [ucfg(ctx, op, 0, [L + 1]) for op in bops] + ([ucfg(ctx, 'add', 0, [2 * L + 3])] if x86 else []) + ([ucfg(ctx, 'multiply' if ctx != 'avx' else 'subtract', 1, [Ld + 1])] if not wide else [])
+    t = [ucfg(ctx, op, 0, [n]) for op in (BINARY if not wide else ['add', 'divide']) for n in range(1, 4 * L + 2)]
+    t += [ucfg(ctx, op, 1, [n]) for op in ('add', 'multiply') for n in range(1, 4 * Ld + 2)]
+    t += [ucfg(ctx, op, 0, [L + 1], exact=True, _timeout=900) for op in ('add', 'subtract')]   # exact IEEE add/sub on both sides (cross-check of the abstraction)
+    HARNESSES.append(H('binary', 'h_binary', ctx, 'ew', B_BIN, q, t))
+    pats = lambda r, c: [(r, c, r, 1), (r, c, 1, c), (r, 1, 1, c), (1, c, r, 1), (r, c, r, c), (r, 1, r, c), (1, c, r, c)]
+    qop = {'avx': 'add', 'sse': 'multiply', 'v128': 'subtract', 'v256': 'divide', 'v512': 'add', 'simde': 'add'}[ctx]
+    q = [b2cfg(ctx, qop, 0, *p) for p in (pats(2, L + 1)[:4] if x86 else pats(2, L + 1)[:2] if not wide else [])]
+    q += [b2cfg(ctx, 'add', 0, 2, L + 1, 1, 1)] if ctx == 'avx' else []          # (r,c) x (1,1): pending finding F-C12-bcast-11
+    t = [b2cfg(ctx, 'add', 0, *p) for r in ((1, 2, 3) if x86 else (2,)) for c in (range(1, 2 * L + 2) if x86 else (L - 1, L, L + 1, 2 * L + 1)) for p in pats(r, c)]
+    t += [b2cfg(ctx, op, 0, *p) for op in BINARY[1:] for c in (L - 1, L, L + 1) for p in pats(2, c)]
+    t += [b2cfg(ctx, 'add', 1, *p) for p in pats(2, Ld + 1)] + [b2cfg(ctx, 'add', 0, 2, L + 1, 1, 1), b2cfg(ctx, 'add', 0, 1, 1, 2, L + 1)]
+    HARNESSES.append(H('binary2', 'h_binary2', ctx, 'ew', B_B2, q, t))
+    oop = {'avx': 'add', 'sse': 'multiply', 'v128': 'subtract', 'v256': 'add', 'v512': 'multiply', 'simde': 'add'}[ctx]
+    q = ([ocfg(ctx, oop, 0, 2, L + 1)] if ctx != 'simde' else []) + ([ocfg(ctx, 'subtract', 0, 3, L - 1), ocfg(ctx, 'add', 1, 2, Ld + 1)] if x86 else [])
+    t = [ocfg(ctx, op, 0, n, m) for op in (('add', 'subtract', 'multiply') if x86 else ('add',)) for n in ((1, 2, 3) if x86 else (2,)) for m in range(1, 2 * L + 2)]
+    if ctx == 'simde': t = [ocfg(ctx, 'add', 0, 2, L + 1)] + t
+    HARNESSES.append(H('outer', 'h_outer', ctx, 'outer', B_OUT, q, t))
+    # exact-size (std::array) operands: memory safety of packed loads/stores and tails against the true extent
+    tn = {4: (3, 5, 11), 8: (7, 9, 19), 16: (17, 35)}[L]
+    tcfg = lambda op, n: dict(base(ctx, 'tight', op, 0), TIGHTN=n, _unwind=n + 2)
+    HARNESSES.append(H('tight', 'h_tight', ctx, 'tight', 'std::array<float,TIGHTN> operands (exactly TIGHTN cells, TIGHTN a per-query constant from {L-1, L+1, 2L+3}); relu and add; every element symbolic; '
+                       'CBMC object bounds on every packed load/store and tail access', [tcfg('relu', tn[1]), tcfg('add', tn[1])] if ctx != 'simde' else [tcfg('relu', tn[0])],
+                       [tcfg(op, n) for op in ('relu', 'add') for n in tn]))
+    if ctx in ('avx', 'sse', 'v256'):
+        HARNESSES.append(H('outer2', 'h_outer2', ctx, 'outer', B_OUT, [o2cfg(ctx, 'add', 0, 1, 2, L + 1)],
+                           [o2cfg(ctx, op, 0, 2, 2, m) for op in ('add', 'multiply') for m in range(1, 2 * L + 2)]))
+    # reductions (exact float arithmetic, small integer-valued inputs)
+    if ctx in ('avx', 'sse', 'v256', 'simde'):
+        q = [rcfg(ctx, 'add', 0, sh, ax, kd) for sh, ax, kd in ((((2, L + 1), 0, 1), ((1, L + 1), 1, 1), ((2, L + 1), -1, 0)) if x86 else (((2, L + 1), 0, 0), ((1, L + 1), 1, 1)) if ctx != 'simde' else ())]
+        q += [rcfg(ctx, 'multiply', 0, (2, L + 1), 0, 1), rcfg(ctx, 'multiply', 0, (1, L + 1), 1, 0, KF_C12_MULREDUCE_FULL=1)] if ctx == 'avx' else []
+        t = [rcfg(ctx, 'add', 0, (r, c), ax, kd) for r in (1, 2) for c in (range(1, 2 * L + 2) if x86 else (L - 1, L, L + 1, 2 * L + 1)) for ax in (0, 1, -1, -2) for kd in (0, 1)]
+        t += [rcfg(ctx, 'add', 0, (3, c), ax, 1, _timeout=1800) for c in (L - 1, L + 1) for ax in (0, 1)]
+        t += [rcfg(ctx, 'add', 1, (2, Ld + 1), ax, kd) for ax in (0, 1) for kd in (0, 1)]
+        t += [rcfg(ctx, 'multiply', 0, (2, c), ax, kd, KF_C12_MULREDUCE_FULL=1) for c in (L - 1, L, L + 1) for ax in (0, 1) for kd in (0, 1)]
+        HARNESSES.append(H('reduce2', 'h_reduce2', ctx, 'red', B_RED, q, t))
+        if ctx != 'simde':
+            q = [rcfg(ctx, 'add', 0, (1, 2, L + 1), ax, kd) for ax, kd in (((1, 0), (2, 1)) if ctx == 'avx' else ((2, 0),))]
+            t = [rcfg(ctx, 'add', 0, (2, r, c), ax, kd) for r in (1, 2) for c in (L - 1, L, L + 1) for ax in (0, 1, 2, -1) for kd in (0, 1)]
+            HARNESSES.append(H('reduce3', 'h_reduce3', ctx, 'red', B_RED, q, t))
+        q = [racfg(ctx, 'add', 0, (1, L + 1), kd) for kd in ((0, 1) if ctx != 'simde' else (0,))] + ([racfg(ctx, 'multiply', 0, (1, L + 1), 0, KF_C12_MULREDUCE_FULL=1)] if ctx == 'avx' else [])
+        t = [racfg(ctx, 'add', 0, (1, c), kd) for c in (range(1, 2 * L + 2) if x86 else (L - 1, L, L + 1, 2 * L + 1)) for kd in (0, 1)]
+        t += [racfg(ctx, 'add', 0, (2, c), kd, _timeout=1800) for c in (L - 1, L, L + 1) for kd in (0, 1)]
+        t += [racfg(ctx, 'multiply', 0, (1, c), kd, KF_C12_MULREDUCE_FULL=1) for c in (L - 1, L + 1) for kd in (0, 1)]
+        HARNESSES.append(H('reduceall', 'h_reduceall', ctx, 'red', B_RED, q, t))
+
+def _pending():
+    LAN = {c: lanes(c, 0) for c in CTXS}
+    out = []
+    def unary(fid, ctxs, define, p0, p1, x, op, what):
+        for c in ctxs:
+            out.append(dict(id=fid, harness='unary_' + c, exclude_define=define, witness_inputs=[p0, p1] + [x] * LAN[c],
+                            witness_config={'NLIST': str(LAN[c]), 'TY': 0, '_unwind': LAN[c] + 2}, configs=[{'OP': OPS[op]}], what=what))
+    unary('F-C12-relu6-negzero', ['avx', 'sse', 'simde'], 'KF_C12_RELU6_NEGZERO', '0x0', '0x0', '0x80000000', 'relu6',
+          'relu6(-0.0): scalar functor returns -0.0, the x86 SSE/AVX (and SIMDe) SIMD path max(min(x,6),0) returns +0.0 (maxps returns its second operand for equal zeros); a full pack of -0.0')
+    unary('F-C12-hardtanh-zero-bound', ['avx', 'sse', 'simde'], 'KF_C12_HARDTANH_ZERO', '0x0', '0x3f800000', '0x80000000', 'hardtanh',
+          'hardtanh(x=-0.0, min_val=+0.0, max_val=1): scalar functor returns the input -0.0, the x86 SIMD path min(max(x,min_val),max_val) returns the bound +0.0 (same for a zero max_val)')
+    unary('F-C12-softshrink-nan', ['avx', 'sse', 'v128', 'v256', 'v512'], 'KF_C12_SOFTSHRINK_NAN', '0x3f000000', '0x0', '0x7fc00000', 'softshrink',
+          'softshrink(NaN, lambda=0.5): scalar functor returns 0 (neither comparison holds), every SIMD formulation returns NaN')
+    unary('F-C12-relu-negzero-vecext', ['v128', 'v256', 'v512'], 'KF_C12_RELU_NEGZERO', '0x0', '0x0', '0x80000000', 'relu',
+          'relu(-0.0): scalar functor returns +0.0, the vector-extension SIMD path fmax(-0.0, 0.0) returns -0.0 (x86 SSE/AVX agree with the scalar functor)')
+    for c in ('v128', 'v256', 'v512'):
+        n = {4: 5, 8: 9, 16: 35}[LAN[c]]
+        out.append(dict(id='F-C12-relu-negzero-vecext', harness='tight_' + c, exclude_define='KF_C12_RELU_NEGZERO', witness_inputs=['0x80000000', '0x0'] * n,
+                        witness_config={'OP': 1, 'TIGHTN': n, 'TY': 0, '_unwind': n + 2}, configs=[{'OP': 1}],
+                        what='relu(-0.0) on a std::array operand: scalar functor returns +0.0, the vector-extension SIMD path fmax(-0.0, 0.0) returns -0.0'))
+    for c in CTXS:
+        L = LAN[c]
+        out.append(dict(id='F-C12-bcast-11', harness='binary2_' + c, exclude_define='KF_C12_BCAST_11', witness_inputs=['0x3f800000'] * (2 * (L + 1) + 1),
+                        witness_config={'LR': 2, 'LC': L + 1, 'RR': 1, 'RC': 1, 'OP': 20, 'TY': 0, '_unwind': 2 * (L + 1) + 2}, configs=[{'RR': 1, 'RC': 1}, {'LR': 1, 'LC': 1}],
+                        what='add((2,L+1) ones, (1,1) [[1]], SIMD context): row 1 of the result is 1+0 instead of 2: index::binary_2d_simd tags the one-column operand BROADCAST with '
+                             'index = row and the evaluator reads operand[row], beyond the single element of a (1,1) operand (stale buffer cell; out of bounds for a tight buffer)'))
+        if c in ('avx', 'sse', 'v256', 'simde'):
+            for hn, wc in (('reduceall', {'S0': 1, 'S1': L + 1, 'KD': 0, 'OP': 22, 'TY': 0, 'RK': 0, 'VMAX': 3, '_unwind': L + 3}),
+                           ('reduce2', {'S0': 1, 'S1': L + 1, 'AXIS': 1, 'KD': 0, 'OP': 22, 'TY': 0, 'RK': 2, 'VMAX': 3, '_unwind': L + 3})):
+                out.append(dict(id='F-C12-mulreduce-full', harness='%s_%s' % (hn, c), exclude_define='KF_C12_MULREDUCE_FULL', witness_inputs=['0x1'] * (L + 1), witness_config=wc,
+                                configs=[{'OP': 22}],
+                                what='multiply.reduce of L+1 ones down to ONE element (axis=None, or an axis that leaves one element) with a SIMD context returns 0, scalar 1: '
+                                     'eval_reduction starts the full reduction from set1(0) instead of the op identity (evaluator/ufunc.hpp:203)'))
+    return out
+
+
+PENDING_FINDINGS = _pending()
+
+OUTSIDE = [
+ 'NaN inputs of relu6 and hardtanh (stated assumption NAN_FREE; the x86 and fmin/fmax formulations return the clamp bound where the scalar functor returns NaN: replayed witness relu6(NaN) = 6 vs NaN)',
+ 'NaN payload/sign bits of NaN results (any NaN equals any NaN in the comparison)',
+ 'float arithmetic itself: + - * / sqrt ceil floor are the same uninterpreted function on both sides (LL_UF_FLOAT); exact IEEE add/sub/ceil/floor only in the listed thorough "exact" queries; '
+ 'exact multiply/divide did not return (float multiply N=9 AVX: no verdict in 600 s with kissat)',
+ 'reductions on arbitrary floats (re-association changes rounding; the property waives it): inputs restricted to small integer-valued floats; 3-d reductions with more than (2,2,L+1) elements and (3,c) horizontal reductions only in thorough (no verdict in 900 s at (3,9) VMAX=15)',
+ '2-d x 1-d broadcast ((r,c) x (c,)) under a SIMD context: does not compile for fixed-dim operands (static_assert in utils::isequal on shapes of different length) - nothing to evaluate',
+ 'default std::vector-backed result of broadcasting ufuncs: the result type is requested as a hybrid array via the public output-type argument (dynamic result: 151 s at n=9 vs 2 s)',
+ 'SIMDe AVX-512: hardswish, softshrink, hardshrink do not compile with the installed SIMDe (simde_kxor_mask16/8 undeclared); SIMDe runs in its portable mode (no -mavx512f)',
+ 'matmul SIMD (evaluator/matmul.hpp, index/matmul.hpp): not attempted', 'integer element types (AVX integer ops need AVX2; eval_unary is float-only)', 'column-major operands',
+ 'element counts > 4*lanes+1, 2-d shapes beyond 3 x (2*lanes+1)',
+ 'memory safety against the LOGICAL extent for anything but relu/add on 1-d operands: the hybrid operands of the other harnesses live in capacity-sized storage (72 / 160 cells), so CBMC\'s '
+ 'object bounds catch accesses outside that storage, not a packed access between the logical size and the capacity; the tight_* harnesses (std::array operands of exactly n cells, '
+ 'n in {L-1, L+1, 2L+3}) close this for eval_unary and eval_binary SAME_SHAPE; std::vector-backed exact-size operands gave no verdict (CBMC ran out of memory after 170 s at n=5, SSE)',
+ 'full (out_size == 1) add reductions over more than ~14 elements (AVX (2,17) and SSE (2,8): no verdict in 1800 s each); thorough lists (1,c) for every c and (2,c) for c in L-1..L+1',
+]
+ASSUMPTIONS = [
+ 'NaN inputs are excluded for relu6 and hardtanh only (macro NAN_FREE): x86 minps/maxps and fmin/fmax return the non-NaN operand, the scalar functor returns NaN',
+ 'any NaN result equals any NaN result (payload and sign of NaNs produced by arithmetic are not modelled by CBMC and depend on operand order on x86)',
+ 'hardtanh is asserted for min_val < max_val, softshrink for lambda >= 0 (the domains PyTorch accepts); all other parameters (slope, alpha, lambda of hardshrink) are unconstrained floats',
+ 'LL_UF_FLOAT: float + - * /, sqrt and ceil/floor/... are uninterpreted functions (same symbol in the scalar code, in every vector lane and in the models of the x86 intrinsics), '
+ 'with NaN-in => NaN-out kept and, for leaky_relu/prelu, commutative operands canonically ordered; sound for equalities; compare/select/bit operations, loads/stores and index arithmetic are exact',
+ 'x86 intrinsic models in engine/ll2c.py (max/min/round/cmp/blendv/movmsk/hadd/sqrt lane-wise; roundps under the default MXCSR rounding mode) - validated per run by the differential gate against the real g++ -mavx/-msse4.2 build',
+ 'reductions: elements are integer-valued floats in 0..VMAX so that every association order is exact',
+ 'pending findings (PENDING_FINDINGS) are excluded through their KF_C12_* macros only once they are registered in known_findings.json; until then their queries report VIOLATION',
+]
+CLAIM = dict(
+ text='For x86 SSE, x86 AVX, vector-extension 128/256/512 and SIMDe AVX-512 contexts the solver shows that evaluating unary (relu, relu6, sqrt, ceil, floor, hardtanh, leaky_relu, prelu, '
+      'hardshrink, softshrink, softsign, hardswish), same-shape and 2-d broadcast binary (add, subtract, multiply, divide), outer and add/multiply reduction views with the SIMD context returns '
+      'the same shape and bit-identical elements (-0.0 distinguished from +0.0, NaN ~ NaN) as the default scalar evaluator for every element count 1..4*lanes+1 / listed shape with all element '
+      'data and op parameters symbolic, and that no packed load/store or tail access leaves its buffer (CBMC bounds obligations on the translated evaluator) - outside the registered finding regions.',
+ note='Element counts, shapes, axis, keepdims, op, element type and context are per-query constants (quick: representative counts; thorough: exhaustive ranges). Arithmetic is abstracted '
+      'identically on both sides (LL_UF_FLOAT) except in reductions (exact, small-integer inputs) and the exact cross-check queries. Trusted: clang-14 -O1 lowering, engine/ll2c.py incl. its '
+      'x86 intrinsic models, CBMC + kissat; validated per run by the gate (translated C vs g++ build with the real instructions, 20000 samples per harness) and the witness assertions.')
